@@ -284,7 +284,7 @@ impl SimDriver {
                 if g.exited || g.dropped {
                     continue;
                 }
-                if g.parked && g.opened.is_none() {
+                if g.parked && g.opened.is_none() && !g.held {
                     acts.push((Act::OpenGate(g.id), 20));
                 }
                 if g.read_waiting && g.read_credit == 0 {
